@@ -58,6 +58,7 @@ _SHARED_SEEDS = {}
 
 def reset_shared_seeds():
     _SHARED_SEEDS.clear()
+    _FFT_OBJECTS.clear()
 
 
 def make_seed(spec):
@@ -91,9 +92,36 @@ def _t(p, key):
     return v
 
 
+class BufferFFT(object):
+    """an 'accelerated FFT object' as the FFT= parameter expects (called with the shifted spectrum, returns the inverse
+    transform). Like pyfftw objects it owns its output buffer and returns that same array on every call."""
+
+    def __init__(self):
+        self.out = {}
+
+    def __call__(self, x):
+        x = numpy.asarray(x)
+        buf = self.out.setdefault(x.shape, numpy.empty(x.shape, dtype=complex))
+        buf[...] = numpy.fft.ifft2(x)
+        return buf
+
+
+_FFT_OBJECTS = {}
+
+
+def fft_object(key):
+    if key is None:
+        return None
+    if key == "plain":
+        return numpy.fft.ifft2
+    return _FFT_OBJECTS.setdefault(key, BufferFFT())           # one object shared by every call of the run that names it
+
+
 def call_finite(kind, p, seed):
     ps = warm()["ps"]
     f = ps.ft_phase_screen if kind == "FT" else ps.ft_sh_phase_screen
+    if p.get("fft"):
+        return f(_t(p, "r0"), _t(p, "N"), _t(p, "delta"), _t(p, "L0"), _t(p, "l0"), fft_object(p["fft"]), seed=seed)
     return f(_t(p, "r0"), _t(p, "N"), _t(p, "delta"), _t(p, "L0"), _t(p, "l0"), seed=seed)
 
 
@@ -107,3 +135,18 @@ def construct_infinite(kind, p, seed):
 def abytes(a):
     a = numpy.asarray(a)
     return (str(a.dtype), a.shape, numpy.ascontiguousarray(a).tobytes())
+
+
+def failing_call(v=0):
+    """a library call that is refused with an exception on the unchanged tree (error paths must not leave anything behind)"""
+    m = warm()
+    try:
+        if v % 3 == 0:
+            m["ips"].PhaseScreenVonKarman(16, 0.001, 0.2, 1000., random_seed=1)          # covariance not invertible
+        elif v % 3 == 1:
+            m["ips"].PhaseScreenKolmogorov(9, 0.001, 0.2, 5000., random_seed=1)
+        else:
+            h = numpy.arange(5.) * 1000
+            m["pc"].optimal_grouping(1.5, 9, h, numpy.ones(5))                            # float R, L >= N
+    except Exception:
+        pass
